@@ -214,8 +214,14 @@ func (w *world) genAttr(depth int) slog.Attr {
 		return slog.Any(key, lvGroup{w.genAttrs(1+ch("attr.n", 2), depth+1)})
 	default:
 		if ch("attr.long", 4) == 0 {
-			simrt.Probe("line_over_pool_limit")
-			return slog.String(key, strings.Repeat("L", 17000)+w.token("long"))
+			// around the 16 KiB limit of the buffer pool, on both sides
+			n := []int{17000, 9000, 12500, 14500, 15500, 16300, 33000}[ch("attr.long.n", 7)]
+			if n > 16384 {
+				simrt.Probe("line_over_pool_limit")
+			} else {
+				simrt.Probe("line_near_pool_limit")
+			}
+			return slog.String(key, strings.Repeat("L", n)+w.token("long"))
 		}
 		return slog.Any(key, []byte("bytes "+w.token("b")))
 	}
